@@ -2,6 +2,7 @@
 C04 - modules and hierarchy mirror the scanned directory tree (shares the streams)."""
 from __future__ import annotations
 
+import os
 import re
 import types
 
@@ -430,6 +431,12 @@ def _module_object_case(case):
         rm.__file__ = proj.path("proj") + "/__init__.py"
         # a module object that is a plain file stands for the directory that holds it (dirname of __file__)
         mm.__file__ = proj.path(mp) + ("/" + plain_module if plain_module else "/__init__.py")
+        if not plain_module and len(mp) % 3 == 0:
+            # a package object whose __path__ has been extended in front (plugin / override directories): the entry point is
+            # documented to work from the module's own file
+            os.makedirs(proj.path("_overrides"), exist_ok=True)
+            mm.__path__ = [proj.path("_overrides"), proj.path(mp)]
+            rm.__path__ = [proj.path("_overrides"), proj.path("proj")]
         try:
             obj = sc.snapshot_str(*graph_snapshot(get_evaluable_architecture_for_module_objects(rm, mm, **kw)))
         except Exception as e:  # noqa: BLE001
@@ -437,8 +444,6 @@ def _module_object_case(case):
         if path == obj and not path.startswith("ERR"):
             # the tree changes (a new module below module_path), the SAME module objects and options are used again: the
             # architecture is built from the files as they are now
-            import os
-
             with open(os.path.join(proj.path(mp), "zz_added_later.py"), "w") as f:
                 f.write("import os\n")
             path = sc.real_scan(proj, "proj", mp, **kw)
@@ -619,6 +624,16 @@ def run(ctx: Ctx, aspect="C02"):
     if aspect == "C04" and not ctx.violations:
         s = Stream(ctx, "sub-scans: imports spelled relative to module_path's parent vs fully qualified (repeated directory names)")
         parent_relative(ctx, s, ctx.size(500, 12000))
+        s.finish()
+    if aspect == "C02" and not ctx.violations:
+        s = Stream(ctx, "trees with symbolic links (a file or package reachable under two names) vs the same tree with regular files")
+        symlink_stream(ctx, s, ctx.size(150, 3000))
+        s.finish()
+    if aspect == "C02" and not ctx.violations:
+        from . import c08
+
+        s = Stream(ctx, "imports under exclusion patterns (also patterns differing from a name only in letter case; shared with C08)")
+        c08.tree_stream(ctx, s, ctx.size(400, 4000), ctx.rng("c02-exclusions"))
         s.finish()
     if aspect == "C04" and not ctx.violations:
         s = Stream(ctx, "trees with symbolic links (files and directories, to outside root_path and inside the tree) vs the same tree with regular files")
